@@ -131,6 +131,7 @@ type qModel struct {
 	Anchored []qBatch // successful anchor writes
 	Expired  []string
 	max      int
+	failGet  int // set before a step: the k-th protocol-version lookup of the step fails (the batch goes back, nothing was handled)
 }
 
 func (m *qModel) add(it qItem) { m.Q = append(m.Q, it) }
@@ -138,8 +139,14 @@ func (m *qModel) add(it qItem) { m.Q = append(m.Q, it) }
 // step models one writer iteration. failCAS / failAnchor are 1-based indexes of the failing CAS write / anchor
 // write within this step (0 = none).
 func (m *qModel) step(force bool, failCAS, failAnchor int) {
-	casN, anchorN := 0, 0
+	casN, anchorN, getN := 0, 0, 0
+	failGet := m.failGet
+	m.failGet = 0
 	process := func(k int) bool {
+		getN++
+		if getN == failGet {
+			return false
+		}
 		b := m.Q[:k]
 		// longest prefix with the version of the first element
 		n := 0
@@ -328,6 +335,8 @@ type c16Node struct {
 	expired []string
 	casN    int
 	failCAS int
+	getN    int
+	failGet int
 	seq     int
 	verOf   map[string]uint64
 	// a CAS write failed while the current batch was being prepared (reset at every handler invocation)
@@ -391,7 +400,7 @@ func newC16NodeT(useProxy bool, monitor, timeout time.Duration) *c16Node {
 		v.Handler = &c16Handler{inner: v.Handler, version: genesis, node: n}
 		return v
 	}
-	client := fx.NewClient(mk(0), mk(10))
+	client := &c16Client{Client: fx.NewClient(mk(0), mk(10)), node: n}
 	var q cutter.OperationQueue = n.queue
 	if c16WrapQueue != nil {
 		q = c16WrapQueue(q)
@@ -549,8 +558,23 @@ func (n *c16Node) addUID(sym, uid string, v uint64) error {
 func (n *c16Node) step(force bool, failCAS, failAnchor int) {
 	n.casN, n.failCAS = 0, failCAS
 	n.anchor.n, n.anchor.failAt = 0, failAnchor
+	n.getN = 0
 	n.writer.VerifStep(force)
-	n.failCAS, n.anchor.failAt = 0, 0
+	n.failCAS, n.anchor.failAt, n.failGet = 0, 0, 0
+}
+
+// c16Client is the node's protocol client; the writer's version lookups can be made to fail (once, by index within a step).
+type c16Client struct {
+	*fx.Client
+	node *c16Node
+}
+
+func (c *c16Client) Get(t uint64) (protocol.Version, error) {
+	c.node.getN++
+	if c.node.failGet != 0 && c.node.getN == c.node.failGet {
+		return nil, fmt.Errorf("injected protocol-version lookup failure #%d", c.node.getN)
+	}
+	return c.Client.Get(t)
 }
 
 func (n *c16Node) queueContent() []string {
@@ -571,6 +595,7 @@ type c16Event struct {
 	Force      bool
 	FailCAS    int
 	FailAnchor int
+	FailGet    int // 1-based index of the writer's protocol-version lookup that fails in this step (0 = none)
 }
 
 func (e c16Event) String() string {
@@ -587,6 +612,9 @@ func (e c16Event) String() string {
 	}
 	if e.FailAnchor > 0 {
 		f = fmt.Sprintf(",failAnchor#%d", e.FailAnchor)
+	}
+	if e.FailGet > 0 {
+		f = fmt.Sprintf(",failGet#%d", e.FailGet)
 	}
 	return "tick(" + k + f + ")"
 }
@@ -620,6 +648,7 @@ func c16Replay(events []c16Event) (*qModel, string, string) {
 			m.add(it)
 			n.verOf[uid] = e.V
 		} else {
+			n.failGet, m.failGet = e.FailGet, e.FailGet
 			n.step(e.Force, e.FailCAS, e.FailAnchor)
 			m.step(e.Force, e.FailCAS, e.FailAnchor)
 		}
@@ -706,6 +735,9 @@ func c16ParseEvents(s string) []c16Event {
 			if i := strings.Index(body, "failAnchor#"); i >= 0 {
 				fmt.Sscan(body[i+11:], &e.FailAnchor)
 			}
+			if i := strings.Index(body, "failGet#"); i >= 0 {
+				fmt.Sscan(body[i+8:], &e.FailGet)
+			}
 			out = append(out, e)
 		}
 	}
@@ -751,7 +783,9 @@ func c16SequentialMax(r *hx.Run, max int, depthCap int) {
 			ticks = append(ticks, c16Event{Kind: "tick", Force: force, FailCAS: k})
 		}
 		ticks = append(ticks, c16Event{Kind: "tick", Force: force, FailAnchor: 1})
+		ticks = append(ticks, c16Event{Kind: "tick", Force: force, FailGet: 1})
 		if r.Tier == "thorough" {
+			ticks = append(ticks, c16Event{Kind: "tick", Force: force, FailGet: 2})
 			ticks = append(ticks, c16Event{Kind: "tick", Force: force, FailAnchor: 2})
 		}
 	}
@@ -1304,7 +1338,7 @@ func c16Concurrent(r *hx.Run) {
 
 func c16(r *hx.Run) {
 	fx.Quiet()
-	r.Rule = "(a) breadth-first search over event sequences {Add(op, version) over 5 operations x 2 protocol versions; monitor tick; timeout tick; each tick with no fault, a chosen CAS write failing, or the anchor write failing} to depth 5 (thorough 6) with <=3 (4) adds (quick: 8 add events and 10 tick events; thorough: 10 and 16), de-duplicated on the reference state; every transition replays the sequence on a fresh real Writer + cutter + MemQueue + OperationHandler in lock-step with the list reference model (queue content, every handler invocation, every anchored batch); (b) stateless exploration of 4 concurrent scenarios (2-3 submitter goroutines + a writer goroutine taking explorer-chosen ticks and faults) under a cooperative scheduler with scheduling points at every mutex/atomic operation of memqueue.go / writer.go (import-rewritten overlay), all executions with <=2 (thorough 3) deviations (preemptions + faults): linearized queue calls replayed on a FIFO list, batch invariants, no deadlock, and after a fault-free drain every accepted operation anchored exactly once; (c) the writer's own goroutine (Start: timers + select loop) with a 2 ms monitor interval and a 24 h batch timeout: an undersized batch is not cut by any monitor tick (only the part in front of a version boundary is), a stopped writer anchors nothing more. Non-trivial: distinct reference states with an anchored batch; distinct batch partitions observed."
+	r.Rule = "(a) breadth-first search over event sequences {Add(op, version) over 5 operations x 2 protocol versions; monitor tick; timeout tick; each tick with no fault, a chosen CAS write failing, the anchor write failing, or the writer's protocol-version lookup failing} to depth 5 (thorough 6) with <=3 (4) adds (quick: 8 add events and 12 tick events; thorough: 10 and 20), de-duplicated on the reference state; every transition replays the sequence on a fresh real Writer + cutter + MemQueue + OperationHandler in lock-step with the list reference model (queue content, every handler invocation, every anchored batch); (b) stateless exploration of 4 concurrent scenarios (2-3 submitter goroutines + a writer goroutine taking explorer-chosen ticks and faults) under a cooperative scheduler with scheduling points at every mutex/atomic operation of memqueue.go / writer.go (import-rewritten overlay), all executions with <=2 (thorough 3) deviations (preemptions + faults): linearized queue calls replayed on a FIFO list, batch invariants, no deadlock, and after a fault-free drain every accepted operation anchored exactly once; (c) the writer's own goroutine (Start: timers + select loop) with a 2 ms monitor interval and a 24 h batch timeout: an undersized batch is not cut by any monitor tick (only the part in front of a version boundary is), a stopped writer anchors nothing more. Non-trivial: distinct reference states with an anchored batch; distinct batch partitions observed."
 	t0 := time.Now()
 	if (r.Only == "" || strings.HasPrefix(r.Only, "seq|")) && os.Getenv("VERIF_C16_PART") != "conc" {
 		c16Sequential(r)
